@@ -19,6 +19,10 @@ class Undecided(Exception):
     pass
 
 
+class TargetAbsent(ExtractionError):
+    """the (optional) function a target enforces a contract on does not exist in the current source"""
+
+
 def run(cmd, timeout, cwd=None, stdin=None):
     t0 = time.time()
     try:
@@ -34,8 +38,9 @@ class Fn:
 
     def __init__(self, cname, tu, name, flt=None, select=None, kinds=('CXXMethodDecl', 'FunctionDecl', 'CXXConstructorDecl'),
                  self_struct=None, types=(), calls=(), members=(), hooks=(), stmt_hooks=(), aggregates=(),
-                 ret=None, lambda_index=None, extra_params=(), post=None, uf_float=True, opaque=(), lambda_select=None, dtors=(), captures=False):
+                 ret=None, lambda_index=None, extra_params=(), post=None, uf_float=True, opaque=(), lambda_select=None, dtors=(), captures=False, optional=False):
         self.lambda_select = lambda_select
+        self.optional = optional      # the function (a lambda) may legitimately be absent from the current source
         self.uf_float = uf_float
         self.opaque = opaque
         self.dtors = list(dtors)
@@ -144,8 +149,18 @@ class Target:
         loops = []
         info = {'functions': [], 'mappings': {}, 'dropped_statements': []}
         enforced_printer = None
+        present = []
         for f in self.fns:
-            text = f.emit()
+            try:
+                text = f.emit()
+            except ExtractionError as e:
+                if f.optional and ('not found' in str(e) or 'definitions of' in str(e)):
+                    info.setdefault('absent_optional_functions', []).append(f'{f.cname}: {e}')
+                    if f.cname == self.enforce:
+                        raise TargetAbsent(str(e))
+                    continue
+                raise
+            present.append(f)
             P = f.printer
             texts.append(text)
             protos.update(P.protos)
@@ -165,26 +180,27 @@ class Target:
         except OSError:
             ptext = ''
         norm = lambda ps: [re.sub(r'\s+', ' ', re.sub(r'\b\w+$', '', x.strip())).strip() for x in ps]
-        for f in self.fns:
+        for f in present:
             for m in re.finditer(r'(?m)^(?:static[ \t]+)?(?:struct[ \t]+)?\w+[ \t\*]+' + re.escape(f.cname) + r'\s*\(([^;{()]*)\)\s*;', ptext):
                 if norm(m.group(1).split(',')) != norm(f.printer.params):
                     raise ExtractionError(f'{self.name}: prototype of {f.cname} in {self.prelude} does not match the extracted '
                                           f'signature {f.printer.signature}')
+        self.fns_present = present
         harness = self.harness
         if harness is None:
             if enforced_printer is None:
                 raise ExtractionError(f'{self.name}: no harness and no enforced function')
             harness = self.auto_harness(enforced_printer)
         out = ['#include "nv_base.h"', f'#include "{os.path.join(VERIF, self.prelude)}"']
-        for f in self.fns:
+        for f in present:
             out.append(f'#ifndef NV_CONTRACT_{f.cname}\n#define NV_CONTRACT_{f.cname}\n#endif')
         for m in loops:
             out.append(f'#ifndef {m}\n#define {m}\n#endif')
         out += list(protos.values())
         # forward declarations so extracted functions can call each other in any order
-        for f in self.fns:
+        for f in present:
             out.append(f'{f.printer.signature} NV_CONTRACT_{f.cname};')
-        for f, t in zip(self.fns, texts):
+        for f, t in zip(present, texts):
             out.append(t.replace(f'\nNV_CONTRACT_{f.cname}\n', '\n', 1))
         out.append(harness)
         cfile = os.path.join(workdir, self.name + '.c')
@@ -200,6 +216,9 @@ class Target:
         res = {'target': self.name, 'status': 'ok', 'obligations': [], 'seconds': {}, 'note': self.note}
         try:
             cfile = self.build(workdir)
+        except TargetAbsent as e:
+            res.update(status='absent', reason=f'optional function absent: {e}')
+            return res
         except ExtractionError as e:
             res.update(status='undecided', reason=f'extraction: {e}')
             return res
@@ -225,6 +244,8 @@ class Target:
         if self.enforce:
             cmd += ['--enforce-contract', self.enforce]
         for g in self.replace:
+            if any(f.cname == g for f in self.fns) and not any(f.cname == g for f in self.fns_present):
+                continue     # optional callee absent from the source: nothing to replace
             cmd += ['--replace-call-with-contract', g]
         cmd += ['--apply-loop-contracts', gb, gb2]
         rc, so, se, dt = run(cmd, 300)
